@@ -34,15 +34,83 @@ def projSpec (r : SpecRow) : TableRow :=
   ⟨r.qualname, r.framesize, r.family, r.code, r.addrByte, r.instByte, r.hasparam, r.dt, r.sendtwice,
    r.answer⟩
 
+def genRows : List TableRow := Gen.classRows.map projGen
+def specRows : List TableRow := Spec.commandRows.map projSpec
+
+/-- walk the library's rows against the standard's rows (both in name order):
+equal rows are paired off, a library row that is not the next standard row is
+set aside; `none` if a standard row finds no equal library row -/
+def pairOff : List TableRow → List TableRow → Option (List TableRow)
+  | gs, [] => some gs
+  | [], _ :: _ => none
+  | g :: gs, s :: ss => if g = s then pairOff gs ss else (pairOff gs (s :: ss)).map (g :: ·)
+
+theorem pairOff_sound : ∀ (gs ss o : List TableRow), pairOff gs ss = some o →
+    (∀ r ∈ ss, r ∈ gs) ∧ (∀ x ∈ gs, x ∈ ss ∨ x ∈ o)
+  | gs, [], o, h => by
+      simp only [pairOff] at h
+      injection h with h; subst h
+      exact ⟨by simp, fun x hx => Or.inr hx⟩
+  | [], _ :: _, o, h => by simp [pairOff] at h
+  | g :: gs, s :: ss, o, h => by
+      simp only [pairOff] at h
+      by_cases e : g = s
+      · simp only [e, if_true] at h
+        have ih := pairOff_sound gs ss o h
+        subst e
+        refine ⟨fun r hr => ?_, fun x hx => ?_⟩
+        · rcases List.mem_cons.mp hr with rfl | hr
+          · exact List.mem_cons_self
+          · exact List.mem_cons_of_mem _ (ih.1 r hr)
+        · rcases List.mem_cons.mp hx with rfl | hx
+          · exact Or.inl List.mem_cons_self
+          · rcases ih.2 x hx with h' | h'
+            · exact Or.inl (List.mem_cons_of_mem _ h')
+            · exact Or.inr h'
+      · simp only [e, if_false] at h
+        cases hp : pairOff gs (s :: ss) with
+        | none => simp [hp] at h
+        | some o' =>
+          simp only [hp, Option.map] at h
+          injection h with h; subst h
+          have ih := pairOff_sound gs (s :: ss) o' hp
+          refine ⟨fun r hr => List.mem_cons_of_mem _ (ih.1 r hr), fun x hx => ?_⟩
+          rcases List.mem_cons.mp hx with rfl | hx
+          · exact Or.inr List.mem_cons_self
+          · rcases ih.2 x hx with h' | h'
+            · exact Or.inl h'
+            · exact Or.inr (List.mem_cons_of_mem _ h')
+
+/-- the library's classes that the transcribed tables do not name (none on the pinned tree) -/
+def outsideTables : List TableRow := (pairOff genRows specRows).getD []
+
 /-- **The command tables** — for every concrete command class of the current
-tree (regenerated on every run): opcode / address byte / instance byte, the
-parameter nibble flag, the frame format, the send-twice flag, whether an answer
-is expected and whether it is yes/no or an 8-bit value, and the device type to
-be enabled first all equal the independently transcribed rows of IEC 62386
-parts 102, 103, 202, 205, 206, 207, 209, 301, 303, 304 — and no row of the
-standard's tables is missing from the library (the two lists are equal). -/
-theorem table_conforms : Gen.classRows.map projGen = Spec.commandRows.map projSpec := by
-  decide +kernel
+tree (regenerated on every run) that the standard's tables name: opcode /
+address byte / instance byte, the parameter nibble flag, the frame format, the
+send-twice flag, whether an answer is expected and whether it is yes/no or an
+8-bit value, and the device type to be enabled first all equal the
+independently transcribed rows of IEC 62386 parts 102, 103, 202, 205, 206, 207,
+209, 301, 303, 304 — and no row of the standard's tables is missing from the
+library.  (A class the transcribed tables do not name cannot be judged by them;
+the check lists such classes, `outsideTables`, in its evidence.) -/
+theorem table_conforms :
+    (∀ r ∈ specRows, r ∈ genRows) ∧
+    (∀ g ∈ genRows, (∃ r ∈ specRows, r.qualname = g.qualname) → g ∈ specRows) := by
+  have h1 : (pairOff genRows specRows).isSome = true := by decide +kernel
+  have h2 : outsideTables.all (fun g => !(specRows.any (fun r => r.qualname == g.qualname))) = true := by
+    decide +kernel
+  obtain ⟨o, ho⟩ := Option.isSome_iff_exists.mp h1
+  have hs := pairOff_sound _ _ o ho
+  have ho' : outsideTables = o := by simp [outsideTables, ho]
+  refine ⟨hs.1, fun g hg ⟨r, hr, hn⟩ => ?_⟩
+  rcases hs.2 g hg with h | h
+  · exact h
+  · exfalso
+    rw [ho'] at h2
+    have := List.all_eq_true.mp h2 g h
+    simp only [Bool.not_eq_true', List.any_eq_false] at this
+    have := this r hr
+    simp [hn] at this
 
 /-- is a class row registered in the decode registry under the key the standard's opcode implies? -/
 def rowRegistered (T : Tables) (r : ClassRow) : Bool :=
